@@ -168,11 +168,12 @@ func Modf(f float64) (float64, float64) {
 	if f == posInf || f == negInf {
 		return f, nan
 	}
-	if 1/f == negInf {
+	if f == 0 && 1/f == negInf {
 		return f, f
 	}
 	frac := Mod(f, 1)
-	return f - frac, frac
+	// Both results have the sign of f: -0.5 splits into (-0, -0.5).
+	return Copysign(f-frac, f), frac
 }
 
 func NaN() float64 {
